@@ -16,6 +16,7 @@ package pppoe
 //     S/<mac>/<sv>/<cv>/<sid>/<kind>       session-stage frame; kind: see vc04Frame (LCP codes, PAP, CHAP, IPCP, IPv6CP, IPv6, unknown)
 //     D/<sid>                              dead peer reported by the echo generator
 //     X/<sid>/<mac>/<sv>/<cv>              restore of a persisted session (installInMemoryState)
+//     H/<sid>/<mac>/<sv>/<cv>[/<userhex>]  run-time HA restore (restoreFromHASync) of one checkpoint synced from the peer
 //     K/<mac>/<sv.cv>,<sv.cv>,...          equivalence classes of c.sessionKey over these tuples
 //     W/<k>                                wait until the k-th second after the first second of the case
 //     L/<ttl_s>                            change the cookie manager's lifetime (unsafe seam)
@@ -25,6 +26,8 @@ package pppoe
 import (
 	"bufio"
 	"bytes"
+	"context"
+	"runtime"
 	"crypto/hmac"
 	"crypto/sha256"
 	"encoding/hex"
@@ -41,6 +44,10 @@ import (
 	"unsafe"
 
 	"github.com/google/gopacket/layers"
+	hapb "github.com/veesix-networks/osvbng/api/proto/ha"
+	"github.com/veesix-networks/osvbng/pkg/opdb"
+	"github.com/veesix-networks/osvbng/pkg/southbound"
+	"google.golang.org/protobuf/proto"
 	"github.com/veesix-networks/osvbng/pkg/component"
 	"github.com/veesix-networks/osvbng/pkg/config"
 	"github.com/veesix-networks/osvbng/pkg/config/subscriber"
@@ -102,15 +109,21 @@ type vc04Sub struct{}
 
 func (vc04Sub) Unsubscribe() {}
 
-// vc04Gate is the subscriber.AccessResolver of the component.  handlePADR calls IsMixedAccessSVLAN between
-// allocateSessionID and addToIndexes; when armed, the call blocks until `want` handlers are inside it (or a
-// timeout), which forces the overlap "both handlers have allocated, neither has indexed".
+// vc04Gate is the subscriber.AccessResolver of the component.  handlePADR calls IsMixedAccessSVLAN after
+// allocateSessionID and before addToIndexes.  When armed, every call records whether c.sidMu is held at that
+// moment (TryLock probe) and blocks until the supervisor opens the gate.  The supervisor opens it by a handshake
+// on the actual state of the handlers, not by a delay: every one of the `want` handlers is either inside the
+// gate, or blocked in sync.(*Mutex).Lock below handlePADR (seen in the goroutine dump), or has returned.
 type vc04Gate struct {
-	mu      sync.Mutex
-	armed   bool
-	want    int
-	inside  int
-	release chan struct{}
+	mu       sync.Mutex
+	armed    bool
+	want     int
+	inside   int
+	locked   int // entries during which sidMu was held
+	finished int
+	timeout  bool
+	release  chan struct{}
+	sidMu    *sync.Mutex
 }
 
 func (g *vc04Gate) IsMixedAccessSVLAN(svlan uint16) bool {
@@ -120,43 +133,122 @@ func (g *vc04Gate) IsMixedAccessSVLAN(svlan uint16) bool {
 		return false
 	}
 	g.inside++
+	if g.sidMu.TryLock() {
+		g.sidMu.Unlock()
+	} else {
+		g.locked++
+	}
 	ch := g.release
 	g.mu.Unlock()
-	select {
-	case <-ch:
-	case <-time.After(2 * time.Second):
-	}
+	<-ch
 	return false
 }
 
-// supervise opens the gate when all `want` handlers are inside, or when no further handler has arrived for
-// 60 ms (an implementation that serialises allocation+indexing lets only one in at a time).
-func (g *vc04Gate) supervise(done <-chan struct{}) {
-	last, stable := -1, 0
+func vc04BlockedPADR() int {
+	buf := make([]byte, 1<<20)
+	buf = buf[:runtime.Stack(buf, true)]
+	n := 0
+	for _, gr := range strings.Split(string(buf), "\n\n") {
+		if strings.Contains(gr, "handlePADR") && strings.Contains(gr, "sync.(*Mutex).Lock") {
+			n++
+		}
+	}
+	return n
+}
+
+func (g *vc04Gate) supervise() {
+	deadline := time.Now().Add(5 * time.Second)
 	for {
-		select {
-		case <-done:
-			return
-		case <-time.After(3 * time.Millisecond):
-		}
 		g.mu.Lock()
-		in := g.inside
+		in, fin := g.inside, g.finished
 		g.mu.Unlock()
-		if in == last {
-			stable++
-		} else {
-			last, stable = in, 0
-		}
-		if in >= g.want || stable >= 20 {
+		if in+fin >= g.want || in+fin+vc04BlockedPADR() >= g.want {
+			// re-read: a handler counted as blocked may have entered meanwhile, which is fine
 			close(g.release)
 			return
 		}
+		if time.Now().After(deadline) {
+			g.mu.Lock()
+			g.timeout = true
+			g.mu.Unlock()
+			close(g.release)
+			return
+		}
+		runtime.Gosched()
+		time.Sleep(200 * time.Microsecond)
 	}
 }
 
+// fakes for the HA restore path
+type vc04DB struct {
+	mu sync.Mutex
+	m  map[string]map[string][]byte
+}
+
+func (d *vc04DB) Put(_ context.Context, ns, key string, v []byte) error {
+	d.mu.Lock()
+	defer d.mu.Unlock()
+	if d.m[ns] == nil {
+		d.m[ns] = map[string][]byte{}
+	}
+	d.m[ns][key] = append([]byte{}, v...)
+	return nil
+}
+func (d *vc04DB) Delete(_ context.Context, ns, key string) error {
+	d.mu.Lock()
+	defer d.mu.Unlock()
+	delete(d.m[ns], key)
+	return nil
+}
+func (d *vc04DB) Load(_ context.Context, ns string, fn opdb.LoadFunc) error {
+	d.mu.Lock()
+	cp := map[string][]byte{}
+	for k, v := range d.m[ns] {
+		cp[k] = v
+	}
+	d.mu.Unlock()
+	for k, v := range cp {
+		if err := fn(k, v); err != nil {
+			return err
+		}
+	}
+	return nil
+}
+func (d *vc04DB) Count(_ context.Context, ns string) (int, error) { return len(d.m[ns]), nil }
+func (d *vc04DB) Clear(_ context.Context, ns string) error        { return nil }
+func (d *vc04DB) Stats() opdb.Stats                               { return opdb.Stats{} }
+func (d *vc04DB) Close() error                                    { return nil }
+
+type vc04SB struct{ southbound.Southbound }
+
+func (vc04SB) AddPPPoESession(sid uint16, _ net.IP, _ net.HardwareAddr, _ net.HardwareAddr, _ uint32, _ uint16, _ uint16, _ uint32, _ uint16, _ southbound.MSSClampPolicy) (uint32, error) {
+	return 1000 + uint32(sid), nil
+}
+func (vc04SB) DeletePPPoESessionAsync(_ uint16, _ net.IP, _ net.HardwareAddr, cb func(error)) { cb(nil) }
+func (vc04SB) GetInterfaceIndex(string) (int, error)                                        { return 0, nil }
+
+type vc04Cache struct{}
+
+func (vc04Cache) Set(context.Context, string, []byte, time.Duration) error { return nil }
+func (vc04Cache) Get(context.Context, string) ([]byte, error)             { return nil, nil }
+func (vc04Cache) GetAll(context.Context, string) (map[string][]byte, error) {
+	return nil, nil
+}
+func (vc04Cache) Delete(context.Context, string) error { return nil }
+func (vc04Cache) Scan(context.Context, uint64, string, int64) ([]string, uint64, error) {
+	return nil, 0, nil
+}
+func (vc04Cache) Incr(context.Context, string) (int64, error)         { return 0, nil }
+func (vc04Cache) Decr(context.Context, string) (int64, error)         { return 0, nil }
+func (vc04Cache) Expire(context.Context, string, time.Duration) error { return nil }
+func (vc04Cache) Close() error                                        { return nil }
+
 type vc04Cfg struct{ lo, hi uint16 }
 
-func (f *vc04Cfg) GetRunning() (*config.Config, error) { return &config.Config{}, nil }
+func (f *vc04Cfg) GetRunning() (*config.Config, error) {
+	return &config.Config{HA: config.HAConfig{SRGs: map[string]*config.SRGConfig{
+		"srg1": {Interfaces: []string{"TenGigE0/0.100"}}}}}, nil
+}
 func (f *vc04Cfg) GetStartup() (*config.Config, error) { return &config.Config{}, nil }
 func (f *vc04Cfg) LookupSubscriberGroup(svlan, cvlan uint16) (subscriber.GroupMatch, bool) {
 	if svlan >= f.lo && svlan <= f.hi {
@@ -305,6 +397,7 @@ type vc04World struct {
 	nbulk    int
 	bulk     []*SessionState
 	lastPado []byte
+	hcount   int
 }
 
 func (w *vc04World) register(s *SessionState, bulk bool) int {
@@ -344,6 +437,8 @@ func vc04Build(f []string) *vc04World {
 		ifMgr:            ifMgr,
 		cfgMgr:           &vc04Cfg{lo: vc04U16(g[0]), hi: vc04U16(g[1])},
 		accessResolver:   gate,
+		opdb:             &vc04DB{m: map[string]map[string][]byte{}},
+		cache:            vc04Cache{},
 		acName:           defaultACName,
 		cookieMgr:        cm,
 		sessions:         make(map[string]*SessionState),
@@ -357,6 +452,8 @@ func vc04Build(f []string) *vc04World {
 		nextSessionID:    1,
 	}
 	c.SetReadyState(component.StateReady)
+	c.StartContext(context.Background())
+	gate.sidMu = &c.sidMu
 	w := &vc04World{c: c, bus: bus, gate: gate, secret: secret, uid: map[*SessionState]int{}, byName: map[string]*SessionState{}}
 	if occ := strings.TrimPrefix(f[4], "occ="); occ != "-" {
 		for _, r := range strings.Split(occ, ",") {
@@ -570,6 +667,30 @@ func (w *vc04World) op(tok string) string {
 			sb = append(sb, "u"+strconv.Itoa(u))
 		}
 		return "reach:" + strings.Join(sb, "+")
+	case "H":
+		// H/<sid>/<mac>/<sv>/<cv>[/<userhex>]: one checkpoint synced from the HA peer, then restoreFromHASync("srg1")
+		sid, mac, sv, cv := vc04U16(p[1]), vc04Hex(p[2]), vc04U16(p[3]), vc04U16(p[4])
+		user := ""
+		if len(p) > 5 {
+			user = string(vc04Hex(p[5]))
+		}
+		name := fmt.Sprintf("h%d", len(w.uid)+w.hcount)
+		w.hcount++
+		cp := &hapb.SessionCheckpoint{SessionId: name, SrgName: "srg1", Mac: mac, OuterVlan: uint32(sv), InnerVlan: uint32(cv),
+			Username: user, AaaSessionId: "a" + name, PppoeSessionId: uint32(sid)}
+		raw, _ := proto.Marshal(cp)
+		c.opdb.Put(context.Background(), opdb.NamespaceHASyncedPPPoE, name, raw)
+		c.vpp = vc04SB{}
+		c.restoreFromHASync("srg1")
+		c.vpp = nil
+		c.opdb.Delete(context.Background(), opdb.NamespaceHASyncedPPPoE, name)
+		c.sessionMu.RLock()
+		s := c.sessionIDIndex[name]
+		c.sessionMu.RUnlock()
+		if s == nil {
+			return "none"
+		}
+		return "synced:u" + strconv.Itoa(w.register(s, false))
 	case "K":
 		// K/<mac>/<sv.cv>,<sv.cv>,...: which of these tuples does sessionKey render identically (class ids)
 		var keys []string
@@ -613,7 +734,8 @@ func (w *vc04World) op(tok string) string {
 		n, _ := strconv.Atoi(p[1])
 		sv := vc04U16(p[2])
 		w.gate.mu.Lock()
-		w.gate.armed, w.gate.want, w.gate.inside, w.gate.release = true, n, 0, make(chan struct{})
+		w.gate.armed, w.gate.want, w.gate.inside, w.gate.locked, w.gate.finished, w.gate.timeout, w.gate.release =
+			true, n, 0, 0, 0, false, make(chan struct{})
 		w.gate.mu.Unlock()
 		var wg sync.WaitGroup
 		for i := 0; i < n; i++ {
@@ -621,14 +743,20 @@ func (w *vc04World) op(tok string) string {
 			pl := vc04Tag(0x0104, vc04Forge(w.secret, mac, sv, 0, uint32(w.now)))
 			pk := w.pkt(mac, sv, 0, layers.PPPoECodePADR, 0, pl)
 			wg.Add(1)
-			go func() { defer wg.Done(); c.handlePADR(pk) }()
+			go func() {
+				defer wg.Done()
+				defer func() { w.gate.mu.Lock(); w.gate.finished++; w.gate.mu.Unlock() }()
+				c.handlePADR(pk)
+			}()
 		}
-		done := make(chan struct{})
-		go w.gate.supervise(done)
+		go w.gate.supervise()
 		wg.Wait()
-		close(done)
 		w.gate.mu.Lock()
 		w.gate.armed = false
+		gateInfo := fmt.Sprintf("/g%d.%d", w.gate.locked, w.gate.inside)
+		if w.gate.timeout {
+			gateInfo += ".TIMEOUT"
+		}
 		w.gate.mu.Unlock()
 		eg, _ := w.bus.take()
 		var sids []int
@@ -648,7 +776,7 @@ func (w *vc04World) op(tok string) string {
 		for _, s := range sids {
 			sb = append(sb, strconv.Itoa(s))
 		}
-		return "ovl:" + strings.Join(sb, "+")
+		return "ovl:" + strings.Join(sb, "+") + gateInfo
 	case "C":
 		n, _ := strconv.Atoi(p[1])
 		sv := vc04U16(p[2])
